@@ -404,7 +404,7 @@ void float_case(vt::Rng& rng, int64_t icase)
                              (long long)cnt[u], stats.m_min(c), lo[u], stats.m_max(c), hi[u], stats.m_mean(c), mean[u], stats.m_stdev(c), sdev[u]);
             }
             statsOK = statsOK && stats.m_samples(c) == cnt[u] && stats.m_min(c) == static_cast<double>(lo[u]) && stats.m_max(c) == static_cast<double>(hi[u]) &&
-                      std::fabs(stats.m_mean(c) - mean[u]) <= 1e-12L * mag && std::fabs(stats.m_stdev(c) - sdev[u]) <= 1e-6L * std::max(sdev[u], 1e-12L * mag);
+                      std::fabs(stats.m_mean(c) - mean[u]) <= 1e-12L * mag && std::fabs(stats.m_stdev(c) - sdev[u]) <= 1e-6L * std::max(sdev[u], 1e-12L * mag) + 64 * 2.3e-16L * mag; // (+ the rounding of the values themselves)
         }
     }
     const auto modes = std::vector<scaling_type>{scaling_type::none, scaling_type::mean, scaling_type::minmax, scaling_type::standard};
